@@ -8,7 +8,7 @@ from .lp import DecVar, RandVar, DecLinConstr, DecCvxConstr, DecPCvxConstr
 from .lp import DecRoConstr
 from .lp import PiecewiseConvex, PWConstr, ExpPWConstr, DecLMIConstr
 from .lp import Scen
-from .lp import Solution, def_sol
+from .lp import Solution, def_sol, check_objective
 from .subroutines import event_dict
 import numpy as np
 import pandas as pd
@@ -250,6 +250,7 @@ class Model:
             if obj.size > 1:
                 raise ValueError('Incorrect function dimension.')
 
+        check_objective(obj, 1)
         self.obj = obj
         self.sign = 1
         self.pupdate = True
@@ -277,6 +278,7 @@ class Model:
             if obj.size > 1:
                 raise ValueError('Incorrect function dimension.')
 
+        check_objective(obj, -1)
         self.obj = obj
         self.sign = - 1
         self.pupdate = True
@@ -307,6 +309,7 @@ class Model:
             if obj.size > 1:
                 raise ValueError('Incorrect function dimension.')
 
+        check_objective(obj, 1)
         self.obj = obj
         self.obj_ambiguity = ambset
         self.sign = 1
@@ -339,6 +342,7 @@ class Model:
             if obj.size > 1:
                 raise ValueError('Incorrect function dimension.')
 
+        check_objective(obj, -1)
         self.obj = obj
         self.obj_ambiguity = ambset
         self.sign = - 1
